@@ -282,7 +282,7 @@ Title=\"{}\"
                                     '{:X}'.format(int(mux_signal.calc_max()))
                                 )
                                 s = '{:0{}X}h'.format(i, length)
-                            if not signal.is_little_endian:
+                            if not mux_signal.is_little_endian:
                                 # Motorola
                                 mux_out += " %d,%d %s -m" % (start_bit, mux_signal.size, s)
                             else:
